@@ -161,10 +161,38 @@ def run(tier, seed):
     for kind, base in (("auth", {"id": "AQ", "rawId": "AQ", "type": "public-key", "response": {"clientDataJSON": "e30", "authenticatorData": "AAAA", "signature": "c2ln", "userHandle": "dWg"}}),
                        ("reg", {"id": "AQ", "rawId": "AQ", "type": "public-key", "response": {"clientDataJSON": "e30", "attestationObject": "o2NmbXQ"}})):
         for holder, nm in [(None, "rawId")] + [("response", k) for k in base["response"]]:
-            for bad in ("\u00e9", "AQID\u00e9", "\u65e5\u672c\u8a9e", "AQ\u2003ID", "AQ\u00a0ID", "\uff21\uff31\uff29\uff24", "AQ\u0000", "\ud83d\ude00AQ"):
+            for bad in ("\u00e9", "AQID\u00e9", "\u65e5\u672c\u8a9e", "AQ\u2003ID", "AQ\u00a0ID", "\uff21\uff31\uff29\uff24", "AQ\u0000", "\ud83d\ude00AQ",
+                        # Unicode white space / separators / format characters at the ENDS of an otherwise good value (what str.strip(), NFKC or a tolerant reader would drop)
+                        "AQID\u00a0", "\u00a0AQID", "AQID\u0085", "AQID\u2028", "\u2029AQID", "AQID\u3000", "\u1680AQID", "AQID\u2003", "\u200bAQID", "AQID\ufeff", "\u2028", "\u00a0\u00a0", "AQID\u001c", "\u180eAQID"):
                 d = copy.deepcopy(base); (d if holder is None else d[holder])[nm] = bad
                 one(kind, d)
                 one(kind, json.dumps(d))
+    # 1d'. the dict form may be ANY dict - also a subclass that invents values for missing keys (defaultdict, a __missing__ method): a member that is not there is missing
+    import collections
+    class Inventing(dict):
+        def __missing__(self, k):
+            return "AQ"
+    for kind, base in (("auth", {"id": "AQ", "rawId": "AQ", "type": "public-key", "response": {"clientDataJSON": "e30", "authenticatorData": "AAAA", "signature": "c2ln"}}),
+                       ("reg", {"id": "AQ", "rawId": "AQ", "type": "public-key", "response": {"clientDataJSON": "e30", "attestationObject": "o2NmbXQ"}})):
+        for holder, nm in [(None, "id"), (None, "rawId"), (None, "response"), (None, "type")] + [("response", k) for k in base["response"]]:
+            for mk in (lambda d: collections.defaultdict(str, d), lambda d: collections.defaultdict(dict, d), lambda d: Inventing(d), lambda d: collections.OrderedDict(d), lambda d: collections.Counter(d) if all(isinstance(v, int) for v in d.values()) else Inventing(d)):
+                d = copy.deepcopy(base)
+                if holder is None:
+                    d.pop(nm)
+                    d["response"] = mk(d["response"]) if "response" in d else d.get("response")
+                    val = mk(d)
+                else:
+                    d[holder].pop(nm)
+                    d[holder] = mk(d[holder])
+                    val = mk(d)
+                plain = copy.deepcopy(base)
+                (plain if holder is None else plain[holder]).pop(nm)
+                il = (impl.parse_auth_cred if kind == "auth" else impl.parse_reg_cred)(val)
+                want = (impl.parse_auth_cred if kind == "auth" else impl.parse_reg_cred)(plain)
+                chk.evals += 2
+                if il != want:
+                    chk.violation(f"a credential dict of type {type(val).__name__} without member {nm} is judged differently from a plain dict without it: {il[:60]} instead of {want[:60]}", f"{kind}-dict-subclass-missing-member {nm}",
+                                  {"entry": f"parse_{kind}_credential_json", "dict_type": type(val).__name__, "missing": nm, "impl": il, "plain_dict": want})
     # 1e. JSON text may repeat a member name (json.loads keeps the last): the text form is parsed exactly like the value json.loads gives
     dup_texts = []
     for kind, body in (("auth", '"response": {"clientDataJSON": "e30", "authenticatorData": "AAAA", "signature": "c2ln"}'), ("reg", '"response": {"clientDataJSON": "e30", "attestationObject": "o2NmbXQ"}')):
